@@ -32,13 +32,14 @@ type V struct {
 // Base is a midnight (UTC): model time k is Base + k minutes.
 var Base = time.Date(2000, 1, 3, 0, 0, 0, 0, time.UTC)
 
-func Int(i int64) V           { return V{T: 'i', I: i} }
-func Flt(f float64) V         { return V{T: 'f', F: f} }
-func Str(s string) V          { return V{T: 's', S: s} }
-func Bool(b bool) V           { return V{T: 'b', B: b} }
-func Dur(d time.Duration) V   { return V{T: 'd', D: d} }
-func Tim(k int) V             { return V{T: 't', Tm: k} }
-func Rex(p string) V          { return V{T: 'r', S: p} }
+func Int(i int64) V         { return V{T: 'i', I: i} }
+func Flt(f float64) V       { return V{T: 'f', F: f} }
+func Str(s string) V        { return V{T: 's', S: s} }
+func Bool(b bool) V         { return V{T: 'b', B: b} }
+func Dur(d time.Duration) V { return V{T: 'd', D: d} }
+func Tim(k int) V           { return V{T: 't', Tm: k} }
+func Rex(p string) V        { return V{T: 'r', S: p} }
+
 var Missing = V{T: 'm'}
 
 var regexes = map[string]*regexp.Regexp{}
@@ -196,12 +197,12 @@ type N struct {
 	Kids []*N
 }
 
-func Lit(v V) *N                 { return &N{K: 'L', Val: v} }
-func Ref(name string) *N         { return &N{K: 'R', Op: name} }
-func Un(op string, n *N) *N      { return &N{K: 'U', Op: op, Kids: []*N{n}} }
-func Bin(op string, l, r *N) *N  { return &N{K: 'B', Op: op, Kids: []*N{l, r}} }
-func Call(f string, a ...*N) *N  { return &N{K: 'F', Op: f, Kids: a} }
-func Lam(n *N) *N                { return &N{K: 'X', Kids: []*N{n}} }
+func Lit(v V) *N                { return &N{K: 'L', Val: v} }
+func Ref(name string) *N        { return &N{K: 'R', Op: name} }
+func Un(op string, n *N) *N     { return &N{K: 'U', Op: op, Kids: []*N{n}} }
+func Bin(op string, l, r *N) *N { return &N{K: 'B', Op: op, Kids: []*N{l, r}} }
+func Call(f string, a ...*N) *N { return &N{K: 'F', Op: f, Kids: a} }
+func Lam(n *N) *N               { return &N{K: 'X', Kids: []*N{n}} }
 
 func (n *N) Enc() any {
 	switch n.K {
@@ -414,4 +415,16 @@ func (n *N) Depth() int {
 		}
 	}
 	return d
+}
+
+func (n *N) hasStateful() bool {
+	if n.K == 'F' && (n.Op == "count" || n.Op == "spread" || n.Op == "sigma") {
+		return true
+	}
+	for _, k := range n.Kids {
+		if k.hasStateful() {
+			return true
+		}
+	}
+	return false
 }
